@@ -9,6 +9,7 @@ CONSTANTS
   ResultFirst = TRUE
   OwnCaseNumber = TRUE
   ParserStripsParens = TRUE
+  Transient = TRUE
   CrashInHeader = TRUE
 INVARIANT C18_RestartCompletes
 INVARIANT C18_ExactlyOneResult
